@@ -204,6 +204,13 @@ MpOps(s) ==
 \cup (IF On("UploadPart")
         THEN {[op |-> "UploadPart", b |-> b, k |-> k, uid |-> u, n |-> n, body |-> <<pb>>]
                 : b \in Buckets, k \in KeySet, u \in KnownUids(s), n \in PartNums, pb \in PartBodies} ELSE {})
+\* a part upload that is refused after its body has been read (Content-MD5 of other bytes; body shorter than declared):
+\* whatever was stored under that number before is still there
+\cup (IF On("UploadPartRefused")
+        THEN {[op |-> "Upload", target |-> "part", b |-> b, k |-> k, uid |-> u, n |-> n, body |-> <<pb>>, meta |-> <<>>, vid |-> "",
+               digest |-> dl[1], length |-> dl[2], keyClass |-> "ok", metaClass |-> "ok", failAt |-> -1]
+                : b \in Buckets, k \in KeySet, u \in KnownUids(s), n \in PartNums, pb \in PartBodies,
+                  dl \in {<<"wrong", "exact">>, <<"none", "shorter">>}} ELSE {})
 \cup (IF On("Complete")
         THEN {[op |-> "Complete", b |-> b, k |-> k, uid |-> u, list |-> l, vid |-> NextVid(s)]
                 : b \in Buckets, k \in KeySet, u \in KnownUids(s), l \in PartLists} ELSE {})
